@@ -170,6 +170,14 @@ def gen_c09(rng, t, thorough):
                     react.append([ev_data(get_resp(other, rng.bytes(rng.below(3)), flag=flag))])
                     react.append([ev_data(get_resp(reg["addr"], v))])
             out.append(ACase("c09-foreign-error", ops, react, {"dev": dev}, cfg=rng.below(4)))
+            # the answer arrives twice (the duplicate stays in the reader's buffer); after an idle pause the port's Flush
+            # fails -- the driver still forgets what it had read ahead, the next read returns the NEW value
+            if reg["kind"] == 1 and not reg["signed"]:
+                v1, v2 = le(1188, 2), le(1352, 2)
+                ops = ["connect", "read/%s/b/%s" % (reg["name"], bytes(v1).hex()), "read/%s/i/%s" % (reg["name"], bytes(v2).hex())]
+                react = connect_react(dev) + [[ev_data(get_resp(reg["addr"], v1) + get_resp(reg["addr"], v1))], [ev_data(get_resp(reg["addr"], v2))]]
+                # flush calls: one at connect (idle), one before the idle read: the second one fails
+                out.append(ACase("c09-flush-fault", ops, react, {"dev": dev}, cfg=rng.below(4), ff="01"))
             # transport and device errors: wrapped with the name, still matchable
             ops, react, tags = ["connect"], connect_react(dev), {"dev": dev}
             for flag, cls in ((1, "Eunknownid"), (2, "Enotsupported"), (4, "Eparameter")):
@@ -263,7 +271,7 @@ def gen_c10(rng, t, thorough):
                     order += [r for r in rs if r["kind"] == kind]
             return order
 
-        def mk(cls, hmask, sub, cancel, variant, fail_at=None, fail_kind="flag", tags=None):
+        def mk(cls, hmask, sub, cancel, variant, fail_at=None, fail_kind="flag", tags=None, late_at=None):
             spec = "all" if sub == "all" else ",".join(sub) if sub else "none"
             order = plan(15 if variant == "m" else hmask, sub)
             react = connect_react(dev)
@@ -283,6 +291,11 @@ def gen_c10(rng, t, thorough):
                         else:
                             react.append([ev_data(get_resp(r["addr"], [], flag=1))])
                     break
+                if late_at is not None and i == late_at:
+                    # a late refusal of ANOTHER register arrives in front of this register's answer: it is not this
+                    # register's error, the read goes on (one more command frame) and the run completes
+                    other = (r["addr"] + 1 + rng.below(5)) % 65536
+                    react.append([ev_data(get_resp(other, rng.bytes(rng.below(3)), flag=rng.choice([1, 2, 4, 0x10])))])
                 react.append([ev_data(get_resp(r["addr"], good_value(rng, r, t)))])
             # independent expectation: how many registers are delivered and how the run ends
             ncancel = None if cancel == "-" or cancel[0] == "d" else 0 if cancel == "b" else int(cancel[1:])
@@ -304,6 +317,9 @@ def gen_c10(rng, t, thorough):
         mk("c10-deadline", 15, "all", "d190", "s")
         mk("c10-deadline", rng.below(16), "all", "d150", "s")
         mk("c10-deadline", 15, "all", "d199", "m")
+        # a late refusal of another register in front of the k-th answer: the run completes
+        for i in range(0, n, 1 if thorough else 5):
+            mk("c10-late-refusal", 15, "all", "-", rng.choice("sm"), late_at=i)
         # device failure at every register position
         positions = range(n) if thorough or n <= 50 else range(n)
         for i in positions:
